@@ -148,6 +148,7 @@ void ExecImpl::step(const Op& op, bool nested) {
     case OP_POP_TRACER: if (!nested) op_pop_tracer(op); break;
     case OP_SET_REPORTER: if (!nested) op_set_reporter(op); break;
     case OP_MUTATE: op_mutate(op); break;
+    case OP_WIDE: op_wide(op); break;
     default: break;
   }
   if (!stop && !shadow && depth == 1) observe_flags();
